@@ -214,6 +214,15 @@ def run_case(case, seed):
         res['outcomes'] = sorted(res['outcomes'])
         return res
     pit, x, y0, model = ctx['pit'], ctx['x'], ctx['y0'], ctx['model']
+    # on a (deterministic) third of the programs everything below is done on a deep COPY of the converted model (a snapshot / EMA copy):
+    # the copy must be self-contained - the original, kept alive and left untouched with all masks open, must not be what it reads
+    import copy
+    import hashlib
+    import json
+    if int(hashlib.sha1(json.dumps(prog, sort_keys=True).encode()).hexdigest(), 16) % 3 == 1:
+        original = pit
+        pit = copy.deepcopy(pit)
+        ctx['original_kept_alive'] = original
     pit.eval()
     mult = D.flat_mult(model, prog)
     els = D.elements(pit, prog, time_moves=False)
